@@ -1,3 +1,11 @@
 import XzVerif.Props.C08
 #print axioms Props.C08.C08_chunks_roundtrip
+#print axioms Props.C08.C08_flush_prefix_decodes
+#print axioms Props.C08.C08_close_decodes
+#print axioms Props.C08.C08_no_call_fails
+#print axioms Props.C08.C08_first_error_is_limit
+#print axioms Props.C08.C08_write_takes_all
+#print axioms Props.C08.C08_after_close
+#print axioms Props.C08.C08_idle_flush
+#print axioms Props.C08.C08_refines
 #print axioms Props.C08.C08_writer_sequences_legal
